@@ -918,6 +918,37 @@ func (e *Extractor) visitCall(info *types.Info, call *ast.CallExpr, bases map[ty
 			add(b, false, Range{Lo: lo, Hi: hi, Field: field, How: "pass " + callee.Name(), Pos: call.Pos()})
 		}
 	}
+	// the whole base handed on to a callee that has a layout on that parameter (PutUUID(data, g) = FromUUID(g).Put(data)):
+	// the callee's ranges are this function's ranges
+	for i, a := range call.Args {
+		if _, isSlice := ast.Unparen(a).(*ast.SliceExpr); isSlice || i >= sig.Params().Len() {
+			continue
+		}
+		b := baseOf(a)
+		if b == nil {
+			continue
+		}
+		pobj := sig.Params().At(i)
+		for _, ct := range e.Tables(callee) {
+			if ct.Base == paramObj(e.decls[callee], i) || ct.Base.Name() == pobj.Name() {
+				for _, r := range ct.Ranges {
+					r2 := r
+					r2.How = "via " + callee.Name() + ": " + r.How
+					r2.Pos = call.Pos()
+					add(b, ct.Write, r2)
+				}
+				if ct.Guard >= 0 {
+					if t := bases[b]; t != nil {
+						for k := 0; k < 2; k++ {
+							if t[k] != nil && t[k].Guard < 0 {
+								t[k].Guard, t[k].GuardEq = ct.Guard, ct.GuardEq
+							}
+						}
+					}
+				}
+			}
+		}
+	}
 	// range-writer helper: f(..., base, lo, hi) with constant lo, hi
 	for i, a := range call.Args {
 		b := baseOf(a)
